@@ -129,6 +129,8 @@ struct Accepted {
     buf: vcf::variant::RecordBuf,
     exp: RecDesc,
     fresh: RecDesc,
+    /// the lazy record read alone could be read through every accessor
+    lazy_ok: bool,
 }
 
 struct HeaderCtx {
@@ -450,6 +452,7 @@ fn check_record(hd: &HeaderDesc, hc: &HeaderCtx, writer: &mut bcf::io::Writer<Ve
     }
 
     // lazy record
+    let mut lazy_ok = false;
     if !raw_broken {
         let lazy = guard::catch(|| {
             let mut r = bcf::io::Reader::from(&bytes[..]);
@@ -468,6 +471,7 @@ fn check_record(hd: &HeaderDesc, hc: &HeaderCtx, writer: &mut bcf::io::Writer<Ve
                     Err(p) => out.violation(format!("panic:{}", p.sig), format!("a lazy bcf::Record accessor panicked: {}\n{ctxs}", p.message)),
                     Ok(Err(e)) => out.violation(format!("lazy-accessor-error:{}", io_err_class(&e)), format!("{e:?}\n{ctxs}")),
                     Ok(Ok(v)) => {
+                        lazy_ok = true;
                         let v = canon(v);
                         out.count("lazy_records_read_through_every_accessor", 1);
                         for d in diff_records(&reference, &v, &Tol::BITS) {
@@ -528,7 +532,12 @@ fn check_record(hd: &HeaderDesc, hc: &HeaderCtx, writer: &mut bcf::io::Writer<Ve
             });
             match lazy {
                 Err(p) => out.violation(format!("panic:{}", p.sig), format!("end()/variant_end/variant_span of the lazy bcf::Record panicked: {}\n{ctxs}", p.message)),
-                Ok(Err(e)) => out.violation(format!("rlen-ne-span:lazy-error:{}:{driver}:{fcls}", io_err_class(&e)), format!("{e:?}\n{ctxs}")),
+                Ok(Err(e)) => {
+                    // an accessor failure of this record was reported above already
+                    if lazy_ok {
+                        out.violation(format!("rlen-ne-span:lazy-error:{}:{driver}:{fcls}", io_err_class(&e)), format!("{e:?}\n{ctxs}"));
+                    }
+                }
                 Ok(Ok((end, tend, tspan))) => {
                     if end != e0 && !rlen_bad {
                         out.violation(format!("rlen-ne-span:lazy-end:{driver}:{fcls}"), format!("bcf::Record::end() = {end}, the description ends at {e0}\n{ctxs}"));
@@ -573,7 +582,7 @@ fn check_record(hd: &HeaderDesc, hc: &HeaderCtx, writer: &mut bcf::io::Writer<Ve
         }
     }
     match eager_desc {
-        Some(fresh) if !raw_broken => Some(Accepted { bytes, buf, exp, fresh }),
+        Some(fresh) if !raw_broken => Some(Accepted { bytes, buf, exp, fresh, lazy_ok }),
         _ => None,
     }
 }
@@ -767,7 +776,11 @@ fn file_pass(hc: &HeaderCtx, recs: &[Accepted], hd: &HeaderDesc, out: &mut CaseO
                     }
                     for (i, g) in got.into_iter().enumerate().take(recs.len()) {
                         match g {
-                            Err(cls) => out.violation(format!("reused-buffer:{api}:accessor-error:{cls}"), format!("{transport}, record #{i}: {}\n{}", show(i), neighbour(i))),
+                            Err(cls) => {
+                                if recs[i].lazy_ok {
+                                    out.violation(format!("reused-buffer:{api}:accessor-error:{cls}"), format!("{transport}, record #{i}: {}\n{}", show(i), neighbour(i)));
+                                }
+                            }
                             Ok(g) => {
                                 let g = canon_rec(g, ff);
                                 let reference = if lazy { &recs[i].fresh } else { &recs[i].exp };
@@ -916,6 +929,63 @@ fn len_matrix(h: &HeaderDesc, at: &RecDesc) -> Vec<RecDesc> {
         }
     }
     out
+}
+
+/// Non-ASCII text everywhere BCF stores UTF-8: Character values (INFO / FORMAT, scalar, fixed-size and
+/// ragged vectors, mixed with ASCII and missing entries so that per-sample padding widths differ),
+/// String values, IDs, FILTER and contig names. 2-, 3- and 4-byte code points at the UTF-8 length edges.
+fn non_ascii_case(minor: u32) -> (HeaderDesc, Vec<RecDesc>) {
+    let h = HeaderDesc {
+        fileformat: (4, minor),
+        infos: vec![fdef("c1", Num::Count(1), Ty::Character), fdef("cA", Num::Dot, Ty::Character), fdef("s1", Num::Count(1), Ty::String), fdef("sA", Num::Dot, Ty::String)],
+        filters: vec![FilterDef { id: "f\u{e9}".into(), desc: "d".into(), idx: None, extra: vec![] }, FilterDef { id: "\u{4e2d}\u{10000}".into(), desc: "d".into(), idx: None, extra: vec![] }],
+        formats: vec![fdef("GT", Num::Count(1), Ty::String), fdef("c1", Num::Count(1), Ty::Character), fdef("c3", Num::Count(3), Ty::Character), fdef("cV", Num::Dot, Ty::Character), fdef("s1", Num::Count(1), Ty::String), fdef("sV", Num::Dot, Ty::String)],
+        alts: vec![],
+        contigs: vec![ContigDef { id: "1".into(), length: None, md5: None, url: None, idx: None, extra: vec![] }, ContigDef { id: "chr\u{c5}\u{3b1}".into(), length: None, md5: None, url: None, idx: None, extra: vec![] }],
+        others: vec![],
+        samples: vec!["S1".into(), "S\u{fc}2".into()],
+    };
+    let cps: Vec<char> = [0x80u32, 0xe9, 0xff, 0x100, 0x141, 0x3b1, 0x7ff, 0x800, 0x4e2d, 0xfffd, 0x10000, 0x1f600].iter().map(|c| char::from_u32(*c).unwrap()).collect();
+    let gt = || Some(Val::Gt(vec![GtAllele { allele: Some(0), phased: false }, GtAllele { allele: Some(1), phased: false }]));
+    let mut recs = Vec::new();
+    for (i, &c) in cps.iter().enumerate() {
+        let d = cps[(i + 5) % cps.len()];
+        let base = RecDesc { chrom: "1".into(), pos: 100 + recs.len() as u64, ids: vec![], reference: "A".into(), alts: vec!["C".into()], qual: None, filters: vec![], info: vec![], format: vec!["GT".into()], samples: vec![vec![gt()], vec![gt()]] };
+        let mut push = |f: &dyn Fn(&mut RecDesc)| {
+            let mut r = base.clone();
+            r.pos = 100 + recs.len() as u64;
+            f(&mut r);
+            recs.push(r);
+        };
+        push(&|r| r.info = vec![("c1".into(), Some(Val::Char(c)))]);
+        push(&|r| r.info = vec![("cA".into(), Some(Val::Chars(vec![Some(c), Some('a'), None, Some(d)])))]);
+        push(&|r| r.info = vec![("s1".into(), Some(Val::Str(format!("x{c}y{d}")))), ("sA".into(), Some(Val::Strs(vec![Some(c.to_string()), None, Some(format!("{d}{c}"))])))]);
+        let fmt = |k: &str, a: Option<Val>, b: Option<Val>| {
+            let k = k.to_string();
+            move |r: &mut RecDesc| {
+                r.format.push(k.clone());
+                r.samples[0].push(a.clone());
+                r.samples[1].push(b.clone());
+            }
+        };
+        push(&fmt("c1", Some(Val::Char(c)), Some(Val::Char('x'))));
+        push(&fmt("c1", Some(Val::Char('x')), Some(Val::Char(c))));
+        push(&fmt("c1", Some(Val::Char(c)), None));
+        push(&fmt("c1", Some(Val::Char(c)), Some(Val::Char(d))));
+        push(&fmt("c3", Some(Val::Chars(vec![Some(c), Some('a'), Some(d)])), Some(Val::Chars(vec![Some('b'), Some('c'), Some('d')]))));
+        push(&fmt("c3", Some(Val::Chars(vec![Some('a'), None, Some('b')])), Some(Val::Chars(vec![Some(c), Some(c), Some(c)]))));
+        push(&fmt("cV", Some(Val::Chars(vec![Some(c)])), Some(Val::Chars(vec![Some('a'), Some('b'), Some(c)]))));
+        push(&fmt("cV", Some(Val::Chars(vec![Some(c), None, Some('a')])), None));
+        push(&fmt("cV", Some(Val::Chars(vec![Some('a'), Some('b')])), Some(Val::Chars(vec![Some(d), Some(c)]))));
+        push(&fmt("s1", Some(Val::Str(format!("{c}"))), Some(Val::Str("plain".into()))));
+        push(&fmt("s1", Some(Val::Str(format!("a{c}{d}"))), None));
+        push(&fmt("sV", Some(Val::Strs(vec![Some(format!("{c}")), Some("a".into())])), Some(Val::Strs(vec![Some(format!("{d}{d}{c}"))]))));
+        // IDs, FILTER names, contig name
+        push(&|r| r.ids = vec![format!("rs{c}"), format!("{d}id")]);
+        push(&|r| r.filters = vec!["f\u{e9}".into(), "\u{4e2d}\u{10000}".into()]);
+        push(&|r| r.chrom = "chr\u{c5}\u{3b1}".into());
+    }
+    (h, recs)
 }
 
 /// Distinct short allele strings (never equal to REF `A`).
@@ -1317,6 +1387,20 @@ fn run_case(c: &Case) -> CaseOut {
             let (hd, recs, strs) = many_alt_case(2 + (c.seed % 4) as u32);
             do_records(&hd, &recs, &strs, &mut out);
         }
+        "non-ascii" => {
+            let (hd, recs) = non_ascii_case(2 + (c.seed % 4) as u32);
+            for r in &recs {
+                let na = |v: &Option<Val>| match v {
+                    Some(Val::Char(c)) => !c.is_ascii(),
+                    Some(Val::Chars(a)) => a.iter().flatten().any(|c| !c.is_ascii()),
+                    _ => false,
+                };
+                if r.info.iter().any(|(_, v)| na(v)) || r.samples.iter().flatten().any(na) {
+                    out.count("records_with_non_ascii_character_values", 1);
+                }
+            }
+            do_records(&hd, &recs, &[], &mut out);
+        }
         "vector-lengths" => {
             let (hd, recs) = vector_length_case(2 + (c.seed % 4) as u32);
             do_records(&hd, &recs, &[], &mut out);
@@ -1338,6 +1422,7 @@ fn gen_cases(ctx: &Ctx) -> Vec<Case> {
     for k in 0..2u64 {
         cases.push(Case { kind: "many-alts", seed: ctx.seed + k, n: 0, fileformat: None, idx: IdxMode::None });
         cases.push(Case { kind: "vector-lengths", seed: ctx.seed + k, n: 0, fileformat: None, idx: IdxMode::None });
+        cases.push(Case { kind: "non-ascii", seed: ctx.seed + k, n: 0, fileformat: None, idx: IdxMode::None });
     }
     let mut dict_sizes = vec![124usize, 130, 260];
     if !ctx.quick() {
